@@ -638,6 +638,145 @@ def translate_loop_body(src_file, qual, coq_name, params, funcs, effects=()):
     return f"Definition {coq_name} {ps} :=\n  {body}."
 
 
+DELETERS = {"unlink", "rmtree", "rmdir", "remove", "rename", "replace", "move"}
+
+
+def _calls(node, names):
+    return [c for c in ast.walk(node) if isinstance(c, ast.Call) and isinstance(c.func, ast.Attribute)
+            and c.func.attr in names]
+
+
+def _const_strs(node):
+    if isinstance(node, (ast.Tuple, ast.List)) and all(
+            isinstance(e, ast.Constant) and isinstance(e.value, str) for e in node.elts):
+        return [e.value for e in node.elts]
+    return None
+
+
+def _glob_unlink_loop(st, dirname):
+    """`for F in <dirname>.glob(ARG): F.unlink()` -> ARG node, else None"""
+    if (isinstance(st, ast.For) and isinstance(st.target, ast.Name) and len(st.body) == 1 and not st.orelse
+            and isinstance(st.iter, ast.Call) and isinstance(st.iter.func, ast.Attribute)
+            and st.iter.func.attr == "glob" and isinstance(st.iter.func.value, ast.Name)
+            and st.iter.func.value.id == dirname and len(st.iter.args) == 1 and not st.iter.keywords):
+        b = st.body[0]
+        if (isinstance(b, ast.Expr) and isinstance(b.value, ast.Call) and isinstance(b.value.func, ast.Attribute)
+                and b.value.func.attr == "unlink" and isinstance(b.value.func.value, ast.Name)
+                and b.value.func.value.id == st.target.id and not b.value.args and not b.value.keywords):
+            return st.iter.args[0]
+    return None
+
+
+def coq_strs(name, items):
+    body = "; ".join('"' + i.replace('"', '""') + '"%string' for i in items)
+    return f"Definition {name} : list string := [{body}]."
+
+
+def gen_mr_deletions():
+    """run_multiround_bitbirch: every statement that deletes or renames files must have one of
+    three shapes — the start-of-run purge by glob patterns, the purge of the final names, the
+    cleanup (under `if cleanup:`) — in that position; anything else fails closed."""
+    tree = ast.parse((REPO / "bblean/multiround.py").read_text())
+    fn = find_func(tree, "run_multiround_bitbirch")
+    body = fn.body
+    first_round = next((i for i, st in enumerate(body)
+                        if any(isinstance(n, ast.Name) and n.id == "_InitialRound" for n in ast.walk(st))), None)
+    final_round = max((i for i, st in enumerate(body)
+                       if any(isinstance(n, ast.Name) and n.id == "final_fn" for n in ast.walk(st))), default=None)
+    if first_round is None or final_round is None:
+        raise Unsupported("run_multiround_bitbirch: round structure not recognised")
+    purge_globs, purge_names, cleanup_globs = [], [], []
+    for i, st in enumerate(body):
+        if not _calls(st, DELETERS):
+            continue
+        ok = False
+        if isinstance(st, ast.For) and isinstance(st.target, ast.Name) and len(st.body) == 1 and not st.orelse:
+            consts = _const_strs(st.iter)
+            inner = st.body[0]
+            if consts is not None and i < first_round:
+                arg = _glob_unlink_loop(inner, "out_dir")
+                if isinstance(arg, ast.Name) and arg.id == st.target.id:
+                    purge_globs += consts
+                    ok = True
+                elif (isinstance(inner, ast.Expr) and isinstance(inner.value, ast.Call)
+                      and isinstance(inner.value.func, ast.Attribute) and inner.value.func.attr == "unlink"
+                      and isinstance(inner.value.func.value, ast.BinOp)
+                      and isinstance(inner.value.func.value.op, ast.Div)
+                      and isinstance(inner.value.func.value.left, ast.Name)
+                      and inner.value.func.value.left.id == "out_dir"
+                      and isinstance(inner.value.func.value.right, ast.Name)
+                      and inner.value.func.value.right.id == st.target.id
+                      and not inner.value.args
+                      and [(k.arg, getattr(k.value, "value", None)) for k in inner.value.keywords]
+                      == [("missing_ok", True)]):
+                    purge_names += consts
+                    ok = True
+        elif (isinstance(st, ast.If) and isinstance(st.test, ast.Name) and st.test.id == "cleanup"
+              and not st.orelse and i > final_round):
+            args = [_glob_unlink_loop(b, "out_dir") for b in st.body]
+            if all(isinstance(a, ast.Constant) and isinstance(a.value, str) for a in args):
+                cleanup_globs += [a.value for a in args]
+                ok = True
+        if not ok:
+            raise Unsupported(f"line {st.lineno}: run_multiround_bitbirch deletes/renames files in an "
+                              "unrecognised way")
+    # out_dir must be the directory itself at the purge: `out_dir = Path(out_dir)` is the only rebinding
+    for st in body:
+        for n in ast.walk(st):
+            if isinstance(n, ast.Assign) and any(isinstance(t, ast.Name) and t.id == "out_dir" for t in n.targets):
+                v = n.value
+                if not (isinstance(v, ast.Call) and isinstance(v.func, ast.Name) and v.func.id == "Path"
+                        and len(v.args) == 1 and isinstance(v.args[0], ast.Name) and v.args[0].id == "out_dir"):
+                    raise Unsupported(f"line {n.lineno}: out_dir is rebound")
+    return "\n".join([coq_strs("purge_globs", purge_globs), coq_strs("purge_names", purge_names),
+                      coq_strs("cleanup_globs", cleanup_globs)])
+
+
+def gen_mr_prev_globs():
+    """_get_prev_round_buf_and_mol_idxs_files: the two glob patterns, as functions of round_idx;
+    the result must be list(zip(sorted(glob 1), sorted(glob 2)))"""
+    tree = ast.parse((REPO / "bblean/multiround.py").read_text())
+    fn = find_func(tree, "_get_prev_round_buf_and_mol_idxs_files")
+    ctx = Ctx({"round_idx": ("round_idx", "int")}, "str", {}, {}, False)
+    tr = Tr(ctx)
+    pats = {}
+    ret = None
+    for st in fn.body:
+        if (isinstance(st, ast.Assign) and len(st.targets) == 1 and isinstance(st.targets[0], ast.Name)
+                and isinstance(st.value, ast.Call) and isinstance(st.value.func, ast.Name)
+                and st.value.func.id == "sorted" and len(st.value.args) == 1 and not st.value.keywords):
+            g = st.value.args[0]
+            if (isinstance(g, ast.Call) and isinstance(g.func, ast.Attribute) and g.func.attr == "glob"
+                    and isinstance(g.func.value, ast.Name) and g.func.value.id == "path" and len(g.args) == 1):
+                t, ty = tr.expr(g.args[0])
+                if ty != "str":
+                    raise Unsupported("glob pattern is not a string")
+                pats[st.targets[0].id] = t
+                continue
+        if isinstance(st, ast.Assign) and len(st.targets) == 1 and isinstance(st.targets[0], ast.Name) \
+                and st.targets[0].id == "path":
+            continue
+        if isinstance(st, ast.If) and not _calls(st, {"glob"} | DELETERS) and not any(
+                isinstance(n, (ast.Assign, ast.AugAssign, ast.Return)) for n in ast.walk(st)):
+            continue                      # console printing
+        if isinstance(st, ast.Expr) and isinstance(st.value, ast.Constant):
+            continue
+        if isinstance(st, ast.Return):
+            ret = st.value
+            continue
+        raise Unsupported(f"line {st.lineno}: _get_prev_round_buf_and_mol_idxs_files: unrecognised statement")
+    ok = (isinstance(ret, ast.Call) and isinstance(ret.func, ast.Name) and ret.func.id == "list"
+          and len(ret.args) == 1 and isinstance(ret.args[0], ast.Call) and isinstance(ret.args[0].func, ast.Name)
+          and ret.args[0].func.id == "zip" and len(ret.args[0].args) == 2
+          and all(isinstance(a, ast.Name) and a.id in pats for a in ret.args[0].args)
+          and ret.args[0].args[0].id != ret.args[0].args[1].id)
+    if not ok:
+        raise Unsupported("_get_prev_round_buf_and_mol_idxs_files: result is not list(zip(sorted globs))")
+    a, b = (pats[x.id] for x in ret.args[0].args)
+    return (f"Definition prev_bufs_glob (round_idx : Z) : string := {a}.\n"
+            f"Definition prev_idxs_glob (round_idx : Z) : string := {b}.")
+
+
 def gen_mr():
     """bblean/multiround.py: the names of the files written by _save_bufs_and_mol_idxs"""
     out = [HEADER.format(src="bblean/multiround.py")]
@@ -645,6 +784,8 @@ def gen_mr():
         "bblean/multiround.py", "_save_bufs_and_mol_idxs", "save_names",
         [("out_dir", "path"), ("label", "str"), ("round_idx", "int"), ("dtype", "str")],
         {}, effects=["_numpy_streaming_save", "open"]))
+    out.append(gen_mr_deletions())
+    out.append(gen_mr_prev_globs())
     return "\n\n".join(out) + "\n"
 
 
